@@ -1497,6 +1497,12 @@ class EvolveAppTask(BaseEvolutionTask):
                     else:
                         imports.add(import_str)
 
+        if any('models.' in line for line in mutation_lines):
+            # Other mutations can also reference django.db.models (field
+            # types passed to ChangeField, Q objects, constraint classes,
+            # expressions).
+            imports.add('from django.db import models')
+
         imports.add('from django_evolution.mutations import %s'
                     % ', '.join(sorted(mutation_types)))
 
